@@ -232,6 +232,9 @@ func (p *parser) sentence() Item {
 		if t := p.peek(); t.Kind == TIdent && CoqReserved[t.Text] {
 			p.fail("%q is a reserved word of Coq and cannot be the name of a definition", t.Text)
 		}
+		if t := p.peek(); t.Kind == TIdent && t.Text == "_" {
+			p.fail("_ is not an identifier a definition can have")
+		}
 		it.Name = p.ident()
 		for p.isSym("(") {
 			p.next()
